@@ -20,12 +20,15 @@ TraceLog == ndJsonDeserialize(TraceFile)
 VARIABLES l, mismatch
 vars == <<l, mismatch>>
 
-AllocLimitKB(bytes) == 64 * (bytes \div 1024 + 1) + 8192
+AllocLimitKB(bytes) == 64 * (bytes \div 1024 + 1) + 32768
 JudgeLive(e) ==
   IF ~e.found THEN ""
   ELSE IF ~e.nodeok \/ e.local # "ok" THEN (IF e.local = "hang" THEN "NoHang" ELSE "LocalUnaffected")
   ELSE IF e.witness # "ok" THEN (IF e.witness = "hang" THEN "NoHang" ELSE "OthersUnaffected")
   ELSE IF e.ms > 6000 THEN "NoHang"
+  \* the attacked connection is either closed or still works: its receive queue must not be stuck behind the malformed frame
+  \* (a frame whose length field promises more bytes than were sent legitimately keeps the reader waiting and swallows what follows)
+  ELSE IF e.complete /\ e.connup /\ e.after = "lost" THEN "QueueNotStuck"
   ELSE IF e.allockb > AllocLimitKB(e.injected) THEN "AllocBounded"
   ELSE ""
 JudgeEdf(e) ==
